@@ -27,6 +27,7 @@ StdState.init     : StdState
 stepStd           : StdState → Sexp → Except String StdState       -- one command
 runStd            : List Sexp → Except String StdState             -- whole script; error = first illegal command (prefixed "command k: ")
 StdState.live     : StdState → List Term                           -- assertions in force
+opNames           : Op → List String                               -- the standard's symbol(s) for an operator
 envOf             : (logic : String) → Term → SEnv                 -- free symbols declared, sort symbols of all mentioned sorts declared
 ```
 
@@ -537,108 +538,6 @@ def indices : List Sexp → Option (List Nat)
 
 def distinctNames (ns : List String) : Bool := ns.eraseDups.length == ns.length
 
-mutual
-/-- the standard's reading of a term in a scope -/
-def rd (env : SEnv) (scope : List Binding) : Sexp → Except String TT
-  | .atom tok => atomTerm env scope tok
-  | .str lit => (strConstOf lit).map (fun v => (Term.str v, .str))
-  | .list [] => .error "term expected: ()"
-  | .list (.atom hd :: args) =>
-    if hd == "let" then
-      match args with
-      | [.list bs, body] =>
-        match rdBindings env scope bs with
-        | .error e => .error e
-        | .ok new =>
-          if new.isEmpty then .error "let without bindings"
-          else if !distinctNames (new.map (fun b => match b with | .letb n _ _ => n | .var s => s.name)) then
-            .error "let binds a variable twice"
-          else rd env (new ++ scope) body
-      | _ => .error "ill-formed let"
-    else if hd == "forall" || hd == "exists" then
-      match args with
-      | [.list vs, body] =>
-        match rdSortedVars env vs with
-        | .error e => .error e
-        | .ok syms =>
-          if syms.isEmpty then .error "quantifier without variables"
-          else if !distinctNames (syms.map (·.name)) then .error "quantifier binds a variable twice"
-          else match rd env (syms.reverse.map Binding.var ++ scope) body with
-            | .error e => .error e
-            | .ok (b, ty) =>
-              if ty == .bool then .ok (.node (if hd == "forall" then .forall_ else .exists_) [b] (.qvars syms), .bool)
-              else .error "quantifier body must be Bool"
-      | _ => .error "ill-formed quantifier"
-    else if hd == "!" then
-      match args with
-      | t :: _ :: _ => rd env scope t
-      | _ => .error "ill-formed annotation"
-    else if hd == "_" then
-      match args with
-      | [.atom lit, .atom w] =>
-        match bvLiteral? lit, numeral? w with
-        | some v, some k => if k > 0 then .ok (Term.bvc (v % 2 ^ k) k, .bv k) else .error "(_ bvN 0)"
-        | _, _ => .error "unsupported indexed identifier"
-      | _ => .error "unsupported indexed identifier"
-    else if hd == "as" then
-      match args with
-      | [x, sort] =>
-        match rd env scope x, sortStd env sort with
-        | .ok (t, ty), .ok ty' => if ty == ty' then .ok (t, ty) else .error "(as x σ): sort mismatch"
-        | .error e, _ => .error e
-        | _, .error e => .error e
-      | _ => .error "ill-formed (as …)"
-    else if hd == "match" || hd == "par" then .error "unsupported: match"
-    else
-      match symName? hd with
-      | none => .error ("function symbol expected: " ++ hd)
-      | some f =>
-        match rdList env scope args with
-        | .error e => .error e
-        | .ok as =>
-          if as.isEmpty then .error "application without arguments"
-          else if (lookupScope f scope []).isSome then .error ("variable applied to arguments: " ++ f)
-          else if theorySymbols.contains f then applyTheory f as
-          else applyUser env f as
-  | .list (.list hd :: args) =>
-    match rdList env scope args with
-    | .error e => .error e
-    | .ok as =>
-      match hd with
-      | .atom "_" :: .atom f :: idx =>
-        match symName? f, indices idx with
-        | some fn, some ns => if ns.isEmpty then .error "indices expected" else applyIndexed fn ns as
-        | _, _ => .error "ill-formed indexed identifier"
-      | [.atom "as", .atom c, sort] =>
-        if symName? c == some "const" then
-          match sortStd env sort, as with
-          | .ok (.array it et), [v] =>
-            if v.2 == et then .ok (.node .arrayValue [v.1] (.ty it), .array it et) else .error "(as const …): element sort mismatch"
-          | .ok _, _ => .error "(as const σ) needs an array sort and one argument"
-          | .error e, _ => .error e
-        else .error "unsupported qualified identifier"
-      | _ => .error "ill-formed application head"
-  | .list (.str _ :: _) => .error "string literal in head position"
-def rdList (env : SEnv) (scope : List Binding) : List Sexp → Except String (List TT)
-  | [] => .ok []
-  | s :: rest =>
-    match rd env scope s, rdList env scope rest with
-    | .ok t, .ok ts => .ok (t :: ts)
-    | .error e, _ => .error e
-    | _, .error e => .error e
-/-- `((x t) …)`: every right-hand side is read in the same (outer) scope; result innermost-first irrelevant (names distinct) -/
-def rdBindings (env : SEnv) (scope : List Binding) : List Sexp → Except String (List Binding)
-  | [] => .ok []
-  | .list [.atom x, e] :: rest =>
-    match symName? x with
-    | none => .error "let: variable name expected"
-    | some n =>
-      if theorySymbols.contains n then .error ("let binds a theory symbol: " ++ n) else
-      match rd env scope e, rdBindings env scope rest with
-      | .ok (t, ty), .ok bs => .ok (.letb n t ty :: bs)
-      | .error err, _ => .error err
-      | _, .error err => .error err
-  | _ :: _ => .error "ill-formed let binding"
 def rdSortedVars (env : SEnv) : List Sexp → Except String (List Sym)
   | [] => .ok []
   | .list [.atom x, sort] :: rest =>
@@ -651,6 +550,125 @@ def rdSortedVars (env : SEnv) : List Sexp → Except String (List Sym)
       | .error err, _ => .error err
       | _, .error err => .error err
   | _ :: _ => .error "ill-formed sorted variable"
+
+/-- `(_ bvN w)` -/
+def bvLitTerm : List Sexp → Except String TT
+  | [.atom lit, .atom w] =>
+    match bvLiteral? lit, numeral? w with
+    | some v, some k => if k > 0 then .ok (Term.bvc (v % 2 ^ k) k, .bv k) else .error "(_ bvN 0)"
+    | _, _ => .error "unsupported indexed identifier"
+  | _ => .error "unsupported indexed identifier"
+
+/-- application whose head is a list: `((_ f i…) args)` or `((as const σ) v)` -/
+def applyHead (env : SEnv) (hd : List Sexp) (as : List TT) : Except String TT :=
+  match hd with
+  | .atom "_" :: .atom f :: idx =>
+    match symName? f, indices idx with
+    | some fn, some ns => if ns.isEmpty then .error "indices expected" else applyIndexed fn ns as
+    | _, _ => .error "ill-formed indexed identifier"
+  | [.atom "as", .atom c, sort] =>
+    if symName? c == some "const" then
+      match sortStd env sort, as with
+      | .ok (.array it et), [v] =>
+        if v.2 == et then .ok (.node .arrayValue [v.1] (.ty it), .array it et) else .error "(as const …): element sort mismatch"
+      | .ok _, _ => .error "(as const σ) needs an array sort and one argument"
+      | .error e, _ => .error e
+    else .error "unsupported qualified identifier"
+  | _ => .error "ill-formed application head"
+
+/-- application of a function symbol (not a binder, not a reserved word) to elaborated arguments -/
+def applySym (env : SEnv) (scope : List Binding) (f : String) (as : List TT) : Except String TT :=
+  if as.isEmpty then .error "application without arguments"
+  else if (lookupScope f scope []).isSome then .error ("variable applied to arguments: " ++ f)
+  else if theorySymbols.contains f then applyTheory f as
+  else applyUser env f as
+
+def bindingName : Binding → String
+  | .letb n _ _ => n
+  | .var s => s.name
+
+mutual
+/-- the standard's reading of a term in a scope -/
+def rd (env : SEnv) (scope : List Binding) : Sexp → Except String TT
+  | .atom tok => atomTerm env scope tok
+  | .str lit => (strConstOf lit).map (fun v => (Term.str v, .str))
+  | .list [] => .error "term expected: ()"
+  | .list (.atom hd :: args) =>
+    if hd == "let" then rdLet env scope args
+    else if hd == "forall" then rdQuant env scope true args
+    else if hd == "exists" then rdQuant env scope false args
+    else if hd == "!" then rdAnnot env scope args
+    else if hd == "_" then bvLitTerm args
+    else if hd == "as" then rdAs env scope args
+    else if hd == "match" || hd == "par" then .error "unsupported: match"
+    else
+      match symName? hd with
+      | none => .error ("function symbol expected: " ++ hd)
+      | some f =>
+        match rdList env scope args with
+        | .error e => .error e
+        | .ok as => applySym env scope f as
+  | .list (.list hd :: args) =>
+    match rdList env scope args with
+    | .error e => .error e
+    | .ok as => applyHead env hd as
+  | .list (.str _ :: _) => .error "string literal in head position"
+/-- `(let (bindings) body)` -/
+def rdLet (env : SEnv) (scope : List Binding) : List Sexp → Except String TT
+  | [.list bs, body] =>
+    match rdBindings env scope bs with
+    | .error e => .error e
+    | .ok new =>
+      if new.isEmpty then .error "let without bindings"
+      else if !distinctNames (new.map bindingName) then .error "let binds a variable twice"
+      else rd env (new ++ scope) body
+  | _ => .error "ill-formed let"
+/-- `(forall (sorted vars) body)` -/
+def rdQuant (env : SEnv) (scope : List Binding) (isForall : Bool) : List Sexp → Except String TT
+  | [.list vs, body] =>
+    match rdSortedVars env vs with
+    | .error e => .error e
+    | .ok syms =>
+      if syms.isEmpty then .error "quantifier without variables"
+      else if !distinctNames (syms.map (·.name)) then .error "quantifier binds a variable twice"
+      else match rd env (syms.reverse.map Binding.var ++ scope) body with
+        | .error e => .error e
+        | .ok (b, ty) =>
+          if ty == .bool then .ok (.node (if isForall then .forall_ else .exists_) [b] (.qvars syms), .bool)
+          else .error "quantifier body must be Bool"
+  | _ => .error "ill-formed quantifier"
+/-- `(! t attributes…)` -/
+def rdAnnot (env : SEnv) (scope : List Binding) : List Sexp → Except String TT
+  | t :: _ :: _ => rd env scope t
+  | _ => .error "ill-formed annotation"
+/-- `(as x σ)` -/
+def rdAs (env : SEnv) (scope : List Binding) : List Sexp → Except String TT
+  | [x, sort] =>
+    match rd env scope x, sortStd env sort with
+    | .ok (t, ty), .ok ty' => if ty == ty' then .ok (t, ty) else .error "(as x σ): sort mismatch"
+    | .error e, _ => .error e
+    | _, .error e => .error e
+  | _ => .error "ill-formed (as …)"
+def rdList (env : SEnv) (scope : List Binding) : List Sexp → Except String (List TT)
+  | [] => .ok []
+  | s :: rest =>
+    match rd env scope s, rdList env scope rest with
+    | .ok t, .ok ts => .ok (t :: ts)
+    | .error e, _ => .error e
+    | _, .error e => .error e
+/-- `((x t) …)`: every right-hand side is read in the same (outer) scope -/
+def rdBindings (env : SEnv) (scope : List Binding) : List Sexp → Except String (List Binding)
+  | [] => .ok []
+  | .list [.atom x, e] :: rest =>
+    match symName? x with
+    | none => .error "let: variable name expected"
+    | some n =>
+      if theorySymbols.contains n then .error ("let binds a theory symbol: " ++ n) else
+      match rd env scope e, rdBindings env scope rest with
+      | .ok (t, ty), .ok bs => .ok (.letb n t ty :: bs)
+      | .error err, _ => .error err
+      | _, .error err => .error err
+  | _ :: _ => .error "ill-formed let binding"
 end
 
 def readStdTy (env : SEnv) (bound : List Sym) (s : Sexp) : Except String TT :=
@@ -811,6 +829,29 @@ def runStdFrom : StdState → Nat → List Sexp → Except String StdState
 
 /-- run a script from the initial state; the error names the first illegal command (0-based) -/
 def runStd (cmds : List Sexp) : Except String StdState := runStdFrom StdState.init 0 cmds
+
+/-! ## the standard's names of the operators of `Op` -/
+
+/-- the theory symbols (identifier names; for the indexed ones the name after `_`) whose application `readStd`
+elaborates to a node with this operator, given arguments of the right sorts. `div` has two: `/` on Reals, `div` on Ints.
+`pow`, algebraic constants: none. -/
+def opNames : Op → List String
+  | .forall_ => ["forall"] | .exists_ => ["exists"] | .and => ["and"] | .or => ["or"] | .not => ["not"]
+  | .implies => ["=>"] | .iff => ["="] | .equals => ["="] | .ite => ["ite"]
+  | .plus => ["+"] | .minus => ["-"] | .times => ["*"] | .le => ["<="] | .lt => ["<"] | .toReal => ["to_real"]
+  | .div => ["/", "div"]
+  | .bvNot => ["bvnot"] | .bvAnd => ["bvand"] | .bvOr => ["bvor"] | .bvXor => ["bvxor"] | .bvConcat => ["concat"]
+  | .bvExtract => ["extract"] | .bvUlt => ["bvult"] | .bvUle => ["bvule"] | .bvNeg => ["bvneg"] | .bvAdd => ["bvadd"]
+  | .bvSub => ["bvsub"] | .bvMul => ["bvmul"] | .bvUdiv => ["bvudiv"] | .bvUrem => ["bvurem"] | .bvLshl => ["bvshl"]
+  | .bvLshr => ["bvlshr"] | .bvRol => ["rotate_left"] | .bvRor => ["rotate_right"] | .bvZext => ["zero_extend"]
+  | .bvSext => ["sign_extend"] | .bvSlt => ["bvslt"] | .bvSle => ["bvsle"] | .bvComp => ["bvcomp"]
+  | .bvSdiv => ["bvsdiv"] | .bvSrem => ["bvsrem"] | .bvAshr => ["bvashr"] | .bvToNatural => ["bv2nat"]
+  | .strLength => ["str.len"] | .strConcat => ["str.++"] | .strContains => ["str.contains"]
+  | .strIndexOf => ["str.indexof"] | .strReplace => ["str.replace"] | .strSubstr => ["str.substr"]
+  | .strPrefixOf => ["str.prefixof"] | .strSuffixOf => ["str.suffixof"] | .strToInt => ["str.to_int"]
+  | .intToStr => ["str.from_int"] | .strCharAt => ["str.at"]
+  | .arraySelect => ["select"] | .arrayStore => ["store"]
+  | _ => []
 
 /-! ## the environment a term lives in (Core convention: `Ty.custom "Pair{Int, U}"` is an instance of the declared
 sort symbol `Pair` of arity 2; see `Core/Ty.lean`) -/
